@@ -19,9 +19,13 @@ func (h *HarnessError) Error() string { return h.Msg }
 
 // Stats accumulates what a batch of runs covered.
 type Stats struct {
-	Evals       int64                `json:"evaluations"`
-	NonTrivial  int64                `json:"nontrivial"`
-	Steps       int64                `json:"sim_steps"`
+	Evals      int64 `json:"evaluations"`
+	NonTrivial int64 `json:"nontrivial"`
+	Steps      int64 `json:"sim_steps"`
+	// CodeSteps counts instrumented statements executed by the code under test
+	// where the build carries a step counter; not part of the determinism digest
+	// (Go map iteration order inside the code under test may change it)
+	CodeSteps   int64                `json:"code_steps"`
 	Faults      map[string]*[2]int64 `json:"faults"` // kind -> [configured, fired]
 	Probes      map[string]int64     `json:"probes"`
 	Distinct    map[uint64]struct{}  `json:"-"`
